@@ -14,6 +14,11 @@ deserialisation accepts and on every generated private key, all three parameter 
       t1-precompute range is inside the range proved for them, so every obligation discharged for
       verification with generated keys (C02 R4, C13, C18) also covers derived keys; verify /
       hash_verify / _internal_verify composed with the derived key violate no obligation.
+  D6  the verification precompute (NTT(t1 * 2^d) in Montgomery form) is the SAME linear function of t1
+      modulo q in key_gen_internal, expand_public (deserialisation) and private_to_public_key
+      (derivation): symbolic runs with t1 as named symbols, all 256*256*k coefficients compared.
+      Verification uses the precompute only through Montgomery products reduced modulo q, so keys
+      with equal (rho, tr, t1) decide every input identically whichever way they were built.
 Not decided: that t1 recomputed from (rho, s1, s2) equals the generated t1 (ring arithmetic).
 """
 import os
@@ -105,7 +110,15 @@ def analyse(rep, ob, tier, prefix="", with_use=True):
         for root in (("verify", "hash_verify", "internal_verify") if with_use else ()):
             J.append(("%s:use/%s" % (s, root), n[root], {"pk": "derived_from_bytes", "len.ctx": "0..255"}))
         jobs[s] = J
-    res, errs = aicheck.run_sets(jobs)
+    # D6: the verification precompute as a linear map of t1 (symbolic runs; one driver process each)
+    LIN = {"modulus": "8380417", "lin.cap": "600", "dump_lin": "1"}
+    for s in sets:
+        n = roots.names(s)
+        jobs[s + ":pre:keygen"] = [("%s:pre:keygen" % s, n["keygen_from_seed"], dict(LIN, atomize="high_low::power2round"))]
+        jobs[s + ":pre:from_bytes"] = [("%s:pre:from_bytes" % s, n["pk_from_bytes"], dict(LIN, atomize="conversion::simple_bit_unpack"))]
+        for prod in roots.SK_PRODUCERS:
+            jobs[s + ":pre:derived/" + prod] = [("%s:pre:derived/%s" % (s, prod), n["get_public_key"], dict(LIN, atomize="high_low::power2round", sk=prod))]
+    res, errs = aicheck.run_sets(jobs, timeout=6000)
     assume = aicheck.load_assume()
     samples = []
     for s in sets:
@@ -172,6 +185,41 @@ def analyse(rep, ob, tier, prefix="", with_use=True):
             ob(ref_rng is not None and got[0] is not None and ref_rng[0] <= got[0] and got[1] <= ref_rng[1], "D5:same-abstract-class:%s" % prod,
                {"rule": "D5 the derived key's precompute lies in the range proved for generated / deserialised keys", "entry": j["root"], "set": s, "derived": got, "reference": ref_rng})
             samples.append({"set": s, "sk": prod, "rho": rho.get("tag"), "tr": tag, "tr_how": how, "t1_precompute_range": got, "reference_range": ref_rng})
+        # D6
+        def precompute_map(key, npoly):
+            rr = res.get(key)
+            if rr is None or rr["jobs"][0].get("error") or not rr["jobs"][0].get("lin_dump"):
+                vlib.fail_closed(rep, "precompute-run:%s" % key, (errs.get(key) or "no linear forms")[-400:])
+                return None
+            d = rr["jobs"][0]["lin_dump"][:256 * npoly]
+            rows = []
+            for leaf in d:
+                if leaf is None or leaf[0] != 8380417:
+                    rows.append(None)
+                    continue
+                row = {}
+                for nm, c in leaf[2]:
+                    # power2round#0[p*256+i]  /  simple_bit_unpack#p[i]  ->  (p, i)
+                    base, idx = nm.rsplit("[", 1)
+                    idx = int(idx[:-1])
+                    ordn = int(base.rsplit("#", 1)[1])
+                    pi = (idx // 256, idx % 256) if base.startswith("power2round") else (ordn, idx)
+                    row[pi] = c % 8380417
+                rows.append((row, leaf[1] % 8380417))
+            return rows
+        ref = precompute_map(s + ":pre:keygen", k)
+        others = {"deserialised": precompute_map(s + ":pre:from_bytes", k)}
+        for prod in roots.SK_PRODUCERS:
+            others["derived/" + prod] = precompute_map(s + ":pre:derived/" + prod, k)
+        for nm, rows in others.items():
+            ok6 = ref is not None and rows is not None and len(rows) == len(ref) == 256 * k and all(a is not None and a == b for a, b in zip(ref, rows)) \
+                and all(len(a[0]) == 256 and {p for p, _ in a[0]} == {i // 256} for i, a in enumerate(ref))
+            first = None
+            if not ok6 and ref is not None and rows is not None:
+                first = next((i for i, (a, b) in enumerate(zip(ref, rows)) if a != b), None)
+            ob(ok6, "D6:same-precompute-map:%s" % nm,
+               {"rule": "D6 the verification precompute is the same linear function of t1 modulo q in key generation, deserialisation and derivation (verification depends on it only modulo q)",
+                "set": s, "construction": nm, "coefficients_compared": 256 * 256 * k, "first_differing_output": first})
         vs = [x for x in r["sites"] if x["violated"]]
         viol, assumed, _ = aicheck.classify(vs, assume)
         for x in viol:
